@@ -968,6 +968,17 @@ func driveRecover(c *ctx) {
 				}
 			}
 		}
+		// the high-s twin (r, n - s) of the same signature is a valid signature whose genuine id is v ^ 1 (round 9): through Verify with
+		// the recoverable encoding the id that recovers the signer is accepted, the signer's original id is not
+		ns := secp256k1.NewScalar().Negate(s)
+		for _, vb := range []int{int(v) ^ 1, int(v), int(v) ^ 2, int(v) ^ 3} {
+			wire := secec.BuildCompactRecoverableSignature(r, ns, byte(vb))
+			for _, rm := range []bool{false, true} {
+				out := priv.PublicKey().Verify(digest, wire, &secec.ECDSAOptions{Encoding: secec.EncodingCompactRecoverable, RejectMalleable: rm})
+				c.E("vfy.Enc", "q", hx(priv.PublicKey().Bytes()), "digest", hx(digest), "sig", hx(wire), "hasopts", true, "hash", 32, "enc", "recoverable", "rejmal", rm, "out", out)
+			}
+			rec(digest, new(big.Int).SetBytes(r.Bytes()), new(big.Int).SetBytes(ns.Bytes()), vb, vb == int(v)^1, hx(priv.PublicKey().Bytes()))
+		}
 	}
 	// Q at infinity: s R = e G.  Take R = kG, r = x(R) mod n, any s, e = s k.
 	for i := 0; i < c.scale(6, 60); i++ {
